@@ -1,6 +1,7 @@
 import CalVerif.Lemmas.OdsRange
 import CalVerif.Lemmas.OdsCell
 import CalVerif.Lemmas.OdsSheet
+import CalVerif.Lemmas.OdsCount
 /-! # C04 — ODS: cells read back at their position; repeat counts expand faithfully
 
     Property theorems only (helper lemmas live in `Lemmas/OdsRange.lean`).
@@ -468,4 +469,110 @@ example :
     | exact ⟨_, _, rfl⟩
 
 end OdsSheet
+
+/-! ## lexing of the repeat counts (`number-rows-repeated`, `number-columns-repeated`) -/
+namespace OdsCount
+
+/-- **every spelling of a count parses to the count**: any white space, an optional `+`, the decimal digits with any
+    number of leading zeros, any white space — the lexical space of xsd:positiveInteger as far as it fits `usize` —
+    is read as the number the digits denote (`valOf`). Character references are resolved before (`unescape`, trusted).
+    This is the reader after fix ddcfda3 (`…unescape…trim().parse()`); before it, blanks were rejected on both axes
+    and the column count was not unescaped. -/
+theorem count_spellings (pre post ds : List Char) (plus : Bool)
+    (hpre : ∀ c ∈ pre, isWs c = true) (hpost : ∀ c ∈ post, isWs c = true)
+    (hne : ds ≠ []) (hd : ∀ c ∈ ds, IsDigit c) (hv : valOf ds < USIZE) :
+    parseCount (pre ++ ((if plus then ['+'] else []) ++ ds) ++ post) = some (valOf ds) := by
+  obtain ⟨c0, r0, rfl⟩ : ∃ c r, ds = c :: r := by
+    cases ds with
+    | nil => exact absurd rfl hne
+    | cons c r => exact ⟨c, r, rfl⟩
+  have hc0 : IsDigit c0 := hd c0 (by simp)
+  have hlastd : ∃ z, (c0 :: r0).getLast? = some z ∧ IsDigit z := by
+    refine ⟨(c0 :: r0).getLast (by simp), List.getLast?_eq_some_getLast (by simp), ?_⟩
+    exact hd _ (List.getLast_mem _)
+  obtain ⟨z, hz, hzd⟩ := hlastd
+  have hval : parseDigits (c0 :: r0) 0 = some (valOf (c0 :: r0)) := parseDigits_digits _ 0 hd
+  unfold parseCount
+  cases plus with
+  | true =>
+    have ht : trim (pre ++ (['+'] ++ (c0 :: r0)) ++ post) = '+' :: c0 :: r0 := by
+      apply trim_core pre _ post hpre hpost '+' z (c0 :: r0) (Or.inl rfl) ?_ isWs_plus (isWs_digit z hzd)
+      simpa using hz
+    simp only [if_true, ht, stripPlus]
+    rw [if_neg (by simp), hval]
+    simp only [hv, if_true]
+  | false =>
+    have ht : trim (pre ++ ([] ++ (c0 :: r0)) ++ post) = c0 :: r0 := by
+      apply trim_core pre _ post hpre hpost c0 z r0 (Or.inl rfl) ?_ (isWs_digit c0 hc0) (isWs_digit z hzd)
+      simpa using hz
+    have hplus : c0 ≠ '+' := by
+      intro h; subst h
+      obtain ⟨h1, _⟩ := hc0
+      revert h1; decide
+    simp only [Bool.false_eq_true, if_false, ht]
+    have hm : stripPlus (c0 :: r0) = c0 :: r0 := by
+      unfold stripPlus
+      split
+      · rename_i r heq; injection heq with h1 _; exact absurd h1 hplus
+      · rfl
+    rw [hm, if_neg (by simp), hval]
+    simp only [hv, if_true]
+
+/-- the same for the column count (an `i32` in the code): every spelling of a count below 2^31 parses to it -/
+theorem colcount_spellings (pre post ds : List Char) (plus : Bool)
+    (hpre : ∀ c ∈ pre, isWs c = true) (hpost : ∀ c ∈ post, isWs c = true)
+    (hne : ds ≠ []) (hd : ∀ c ∈ ds, IsDigit c) (hv : valOf ds < 2147483648) :
+    parseColCount (pre ++ ((if plus then ['+'] else []) ++ ds) ++ post) = some (valOf ds : Int) := by
+  obtain ⟨c0, r0, rfl⟩ : ∃ c r, ds = c :: r := by
+    cases ds with
+    | nil => exact absurd rfl hne
+    | cons c r => exact ⟨c, r, rfl⟩
+  have hc0 : IsDigit c0 := hd c0 (by simp)
+  obtain ⟨z, hz, hzd⟩ : ∃ z, (c0 :: r0).getLast? = some z ∧ IsDigit z :=
+    ⟨(c0 :: r0).getLast (by simp), List.getLast?_eq_some_getLast (by simp), hd _ (List.getLast_mem _)⟩
+  have hval : parseDigits (c0 :: r0) 0 = some (valOf (c0 :: r0)) := parseDigits_digits _ 0 hd
+  have hplus : c0 ≠ '+' := by
+    intro h; subst h; obtain ⟨h1, _⟩ := hc0; revert h1; decide
+  have hminus : c0 ≠ '-' := by
+    intro h; subst h; obtain ⟨h1, _⟩ := hc0; revert h1; decide
+  unfold parseColCount
+  cases plus with
+  | true =>
+    have ht : trim (pre ++ (['+'] ++ (c0 :: r0)) ++ post) = '+' :: c0 :: r0 := by
+      apply trim_core pre _ post hpre hpost '+' z (c0 :: r0) (Or.inl rfl) ?_ isWs_plus (isWs_digit z hzd)
+      simpa using hz
+    simp only [if_true, ht, stripPlus, List.head?_cons]
+    rw [if_neg (by decide), if_neg (by simp), hval]
+    simp only [hv, if_true]
+  | false =>
+    have ht : trim (pre ++ ([] ++ (c0 :: r0)) ++ post) = c0 :: r0 := by
+      apply trim_core pre _ post hpre hpost c0 z r0 (Or.inl rfl) ?_ (isWs_digit c0 hc0) (isWs_digit z hzd)
+      simpa using hz
+    have hm : stripPlus (c0 :: r0) = c0 :: r0 := by
+      unfold stripPlus
+      split
+      · rename_i r heq; injection heq with h1 _; exact absurd h1 hplus
+      · rfl
+    simp only [Bool.false_eq_true, if_false, ht, List.head?_cons]
+    rw [if_neg (by intro h; injection h with h; exact hminus h), hm, if_neg (by simp), hval]
+    simp only [hv, if_true]
+
+/-- what is not a count is an error (`ParseInt`), never a guess: nothing, a sign alone, a minus sign, inner blanks,
+    letters, an exponent, a value of 2^64 -/
+theorem count_rejects :
+    parseCount [] = none ∧ parseCount [' '] = none ∧ parseCount ['+'] = none ∧ parseCount ['-', '1'] = none ∧
+    parseCount ['1', ' ', '2'] = none ∧ parseCount ['a'] = none ∧ parseCount ['1', 'e', '2'] = none ∧
+    parseCount ['+', '+', '1'] = none ∧
+    parseCount ['1','8','4','4','6','7','4','4','0','7','3','7','0','9','5','5','1','6','1','6'] = none := by
+  decide
+
+/-- non-vacuity: ` +0016384 ` (blank, sign, leading zeros, trailing tab) is 16384; `0` is 0; and the one difference
+    between the two axes inside the sheet limits: a column count may carry a minus sign (an `i32`; it then repeats nothing) -/
+example : parseCount [' ', '+', '0', '0', '1', '6', '3', '8', '4', '\t'] = some 16384 ∧ parseCount ['0'] = some 0 ∧
+    parseColCount [' ', '+', '0', '0', '1', '6', '3', '8', '4', '\t'] = some 16384 ∧
+    parseColCount ['-', '1'] = some (-1) ∧ parseColCount ['2', '1', '4', '7', '4', '8', '3', '6', '4', '8'] = none ∧
+    parseColCount ['-'] = none ∧ parseColCount ['1', ' ', '2'] = none := by
+  decide
+
+end OdsCount
 
